@@ -28,8 +28,8 @@ def run(tier, replay=None):
     d1 = gen.dedupe(d1, key)
     d2 = [c for c in gen.dedupe(d2, key) if key(c) not in {key(x) for x in d1}]
     sim = [c for c in gen.dedupe(sim, key) if len(c["toks"]) > 7]
-    b2 = 5000 if tier == "quick" else 80000
-    b3 = 2500 if tier == "quick" else 40000
+    b2 = 5000 if tier == "quick" else 24000
+    b3 = 2500 if tier == "quick" else 12000
     total2 = len(d2)
     if len(d2) > b2:
         d2 = rnd.sample(d2, b2)
